@@ -14,7 +14,7 @@ From Coq Require Import String.
 Require Import OV.Base.Bytes OV.Base.Py OV.Base.PyInt OV.Base.Str OV.Base.Regex.
 Require Import OV.Gen.Versionutils OV.Model.C17 OV.Model.C17_Spec.
 Require Import OV.Proofs.C04_Regex OV.Proofs.C17_Regex OV.Proofs.C17_Suffix OV.Proofs.C17_PredRe.
-Require Import OV.Proofs.C17 OV.Proofs.C17_Int OV.Proofs.C17_Str OV.Proofs.C17_Pred.
+Require Import OV.Proofs.C17 OV.Proofs.C17_Int OV.Proofs.C17_Str OV.Proofs.C17_Pred OV.Proofs.C17_Equiv.
 Open Scope Z_scope.
 
 (* ================================================================ tuples (round 1) *)
